@@ -71,6 +71,8 @@ def gen(rng, tier):
         chroms = sorted(rng.sample(["1", "2", "7", "22"], rng.randint(1, 3)), key=int) + (["X"] if rng.random() < 0.3 else [])
         sep = rng.choice(["\t", " ", "  ", " \t "])
         per_pop = rng.randint(nsamp, nsamp + 2)
+        if rng.random() < 0.5:
+            per_pop = {q: rng.randint(nsamp, nsamp + 2) for q in ["CEU", "YRI", "AMR", "EAS"]}
         case = dict(violation=v, nsamp=str(nsamp), pops=pops, lines=lines, chroms=chroms, sep=sep, popsize=rng.choice([1, 5, 10, 50]), only_bp=rng.random() < 0.4, no_repl=rng.random() < 0.5, per_pop=per_pop, region=None, seed=rng.randrange(2**31), map_missing=None, bad_map_line=None, bad_sample=None, drop_pop=None, mapdir_ok=True, line_idx=rng.randrange(len(lines)))
         if rng.random() < 0.3:
             case["region"] = {"chr": chroms[0], "start": 150, "end": 450}
@@ -118,9 +120,16 @@ def gen(rng, tier):
             case["drop_pop"] = rng.choice(pops)
             case["only_bp"] = False
         elif v == "tooFewSamples":
-            case["per_pop"] = max(nsamp - rng.randint(1, 2), 0) if nsamp > 1 else 0
-            if case["per_pop"] == 0:
-                case["nsamp"], case["per_pop"] = "2", 1
+            short = max(nsamp - rng.randint(1, 2), 0) if nsamp > 1 else 0
+            if short == 0:
+                case["nsamp"], short = "2", 1
+                nsamp = 2
+            if rng.random() < 0.7:
+                # exactly one population (any position in the header) is short, the others have enough
+                sp = rng.choice(pops)
+                case["per_pop"] = {q: (short if q == sp else nsamp + rng.randint(0, 2)) for q in pops}
+            else:
+                case["per_pop"] = short
             case["no_repl"] = True
             case["only_bp"] = False
         elif v == "region":
@@ -156,7 +165,8 @@ def materialise(case):
     # reference panel + sample info
     samples, info = [], []
     for p in ["CEU", "YRI", "AMR", "EAS"]:
-        for i in range(case["per_pop"] if p in case["pops"] else 1):
+        pp = case["per_pop"]
+        for i in range((pp.get(p, 1) if isinstance(pp, dict) else pp) if p in case["pops"] else 1):
             s = f"{p}{i}"
             samples.append(s)
             if p != case["drop_pop"]:
